@@ -15,6 +15,7 @@ import (
 	"path/filepath"
 	"runtime/debug"
 	"runtime/pprof"
+	"strconv"
 	"strings"
 	"time"
 
@@ -42,6 +43,25 @@ func usage() {
 func main() {
 	if len(os.Args) < 3 {
 		usage()
+	}
+	if os.Args[1] == "probe" && probe != nil {
+		probe()
+		return
+	}
+	if os.Args[1] == "worker" && len(os.Args) >= 6 {
+		sh, _ := strconv.Atoi(os.Args[4])
+		n, _ := strconv.Atoi(os.Args[5])
+		if pf := os.Getenv("VF_CPUPROFILE"); pf != "" {
+			f, _ := os.Create(pf)
+			pprof.StartCPUProfile(f)
+			defer pprof.StopCPUProfile()
+		}
+		if os.Args[2] == "c13race" {
+			c13Race(os.Args[3] == "thorough", sh, n)
+			return
+		}
+		workerMain(os.Args[2], os.Args[3], sh, n)
+		return
 	}
 	id, tier := os.Args[1], os.Args[2]
 	if tier == "--replay" && len(os.Args) >= 4 {
